@@ -111,7 +111,7 @@ NodeTasks(n) == {n[i] : i \in {j \in 1..Len(n) : j % 3 = 1}}
 \* foreign keys of rows `new` against the visible rows `vis`
 FKViol(new, vis) ==
   \/ \E e \in new.Eval : e[1] \notin vis.Task \/ e[3] \notin vis.Value
-  \/ \E n \in new.Node : n[1] \notin vis.Task \/ n[3] \notin vis.Value
+  \/ \E n \in new.Node : Len(n) >= 3 /\ (n[1] \notin vis.Task \/ n[3] \notin vis.Value)  \* (opaque ids: length 1)
   \/ \E e \in new.Edge : e[1] \notin vis.Node \/ e[2] \notin vis.Node
   \/ \E a \in new.Arg : a[1] \notin vis.Node \/ a[2] \notin vis.Value
   \/ \E x \in new.Sub : x[1] \notin vis.Node \/ x[2] \notin vis.Task
